@@ -834,3 +834,30 @@ Proof.
   rewrite !run_history_snoc_l, !last_last.
   rewrite (graph_after_ignores_lookups_l ops), (graph_after_ignores_lookups_l ops'), H. split; reflexivity.
 Qed.
+
+(* ======================================================================================
+   several sources = their concatenation
+   ====================================================================================== *)
+Lemma read_sources_fold : forall (cits : list str) (sources : list db) (st : rstate),
+  fold_left (fun st src => fold_left (add_entry cits) src st) sources st
+  = fold_left (add_entry cits) (concat sources) st.
+Proof.
+  intros cits. induction sources as [|src sources IH]; intros st; [reflexivity|].
+  cbn [fold_left concat]. rewrite fold_left_app. apply IH.
+Qed.
+
+Lemma multi_source_is_concatenation_l : forall wanted sources,
+  read_sources_state wanted sources = read_state wanted (concat sources).
+Proof. intros wanted sources. unfold read_sources_state, read_state. apply read_sources_fold. Qed.
+
+Lemma multi_source_chain_inherits_l : forall cits sources,
+  keys_distinct (concat sources) -> children_first (concat sources) ->
+  forall k e f, want_entry (Some cits) k = true -> ci_get (concat sources) k = Some e ->
+  exists k', ci_get (read_sources (Some cits) sources) k = Some (rekey k' e) /\
+             entry_find_field (Some (read_sources (Some cits) sources)) (rekey k' e) f
+             = entry_find_field (Some (concat sources)) e f.
+Proof.
+  intros cits sources Hnd Hcf k e f Hw Hk. unfold read_sources.
+  rewrite multi_source_is_concatenation_l.
+  exact (filtered_chain_inherits_l cits (concat sources) Hnd Hcf k e f Hw Hk).
+Qed.
